@@ -185,5 +185,5 @@ def finish(ctx, coverage):
     if broken:
         for n, v, m in broken:
             print('HARNESS-BROKEN: vacuity guard %r = %r < %r' % (n, v, m))
-        return 2
+        if not new: return 2
     return 1 if new else 0
